@@ -25,6 +25,7 @@ func init() {
 			{ID: "C06.R2", Min: 3, Doc: "route hand-off: may-block analysis of SendAllMatch/SendFirstMatch/ConsistentHashing.Dispatch with the send on Destination.In accepted", Run: c06r2},
 			{ID: "C06.R3", Min: 1, Doc: "dialling is never inline: net.Dial* is unreachable from relay over call/defer edges", Run: c06r3},
 			{ID: "C06.R5", Min: 1, Doc: "fresh liveness: on every path from the relay loop's header to its select on which a connection is held (conn != nil), conn.isAlive() was evaluated in that iteration — the conn != nil decision of the `<-dest.In` case (write vs. count as conn-down drop) is never made on a connection that died before the iteration", Run: c06r5},
+			{ID: "C06.R6", Min: 3, Doc: "no silent loss on a healthy connection: what Conn.Write hands to the buffered writer is the complete line and its newline (or the complete pickle frame), and the buffered writer copies only into free space of its buffer — bytes that vanish there are lost without any counter moving (rules C05.R3 and C05.R5 evaluated for this property as well)", Run: func(c *Check) { c05r3(c); c05r5(c) }},
 			{ID: "C06.R4", Min: 3, Doc: "disposition accounting: path enumeration of the `<-dest.In` and `<-toUnspool` case bodies and of HandleData's `<-c.In` case", Run: c06r4},
 		},
 	})
@@ -68,6 +69,10 @@ func buildRelayModel(c *Check) *relayModel {
 			lab = f.Name()
 		} else if _, names := fieldPath(st.Chan); len(names) > 0 {
 			lab = names[len(names)-1]
+		} else if st.Dir == types.RecvOnly {
+			// the only receive whose channel is a local value (a variable switched between
+			// spool.Out and nil, or the result of a helper that makes that choice)
+			lab = "toUnspool"
 		} else {
 			lab = describeVal(st.Chan)
 		}
@@ -142,10 +147,24 @@ func keepCleanStopsPromptly(c *Check, a *blockAnalysis) bool {
 	return ok && closes
 }
 
-func c06r5(c *Check) {
-	m := buildRelayModel(c)
+// relayHeadPaths enumerates the paths of one iteration of the relay loop from the loop header to
+// the choice of a select state. Methods of Destination and closures are expanded, so the model is
+// the same whether the pre-select part is written inline or split into helpers. Events:
+//
+//	conn:nil / conn:held          a *Conn value compared with nil
+//	alive@X / dead@X              outcome of X.isAlive()
+//	spool:on|off  slowlast:T|F  slownow:T|F
+//	tasks.Add  go:collectRedo@X  go:other  clearRedo
+//	unspool:on|off|?              what the toUnspool state of the select receives from on this path
+func relayHeadPaths(c *Check, m *relayModel) ([]Path, bool) {
 	nIsAlive := "(*" + modPath + "/destination.Conn).isAlive"
-	selBlock := m.sel.Block()
+	nCollect := "(*" + modPath + "/destination.Destination).collectRedo"
+	nClear := "(*" + modPath + "/destination.Conn).clearRedo"
+	spoolF := c.P.Field("destination", "Destination", "Spool")
+	slowLastF := c.P.Field("destination", "Destination", "SlowLastLoop")
+	slowNowF := c.P.Field("destination", "Destination", "SlowNow")
+	tasksF := c.P.Field("destination", "Destination", "tasks")
+	outF := c.P.Field("destination", "Spool", "Out")
 	isConn := func(v ssa.Value) bool {
 		pt, ok := v.Type().(*types.Pointer)
 		if !ok {
@@ -154,12 +173,86 @@ func c06r5(c *Check) {
 		n, ok := pt.Elem().(*types.Named)
 		return ok && n.Obj().Name() == "Conn" && n.Obj().Pkg() != nil && n.Obj().Pkg().Path() == modPath+"/destination"
 	}
+	stop := map[*ssa.BasicBlock]bool{}
+	for _, su := range m.sel.Block().Succs {
+		stop[su] = true
+	}
+	// identity of a connection value: the variable it is loaded from, or the value itself
+	id := func(v ssa.Value) string {
+		v = strip(v)
+		if u, ok := v.(*ssa.UnOp); ok && u.Op == token.MUL {
+			switch a := u.X.(type) {
+			case *ssa.Alloc:
+				return fmt.Sprintf("var:%p", a)
+			case *ssa.FreeVar:
+				if b := freeVarBinding(a); b != nil {
+					return fmt.Sprintf("var:%p", b)
+				}
+			}
+		}
+		return fmt.Sprintf("%p", v)
+	}
 	cfg := &PathCfg{
-		Stop: func(b *ssa.BasicBlock) bool { return b == selBlock },
-		Branch: func(ifi *ssa.If, cond ssa.Value, taken bool) []string {
+		ConsistentFields: map[*types.Var]bool{spoolF: true, slowLastF: true, slowNowF: true},
+		Stop:             func(b *ssa.BasicBlock) bool { return stop[b] },
+		Inline: func(g *ssa.Function) bool {
+			if g.Parent() != nil {
+				return true
+			}
+			return g.Signature.Recv() != nil && types.Identical(g.Signature.Recv().Type(), m.fn.Signature.Recv().Type()) && FuncName(g) != short(nCollect)
+		},
+		ClassifyV: func(in ssa.Instruction, resolve func(ssa.Value) ssa.Value) []string {
+			if g, ok := in.(*ssa.Go); ok {
+				if calleeName(&g.Call) == nCollect && len(g.Call.Args) == 2 {
+					return []string{"go:collectRedo@" + id(resolve(g.Call.Args[1]))}
+				}
+				return []string{"go:other"}
+			}
+			if sel, ok := in.(*ssa.Select); ok && sel == m.sel {
+				for i, st := range sel.States {
+					if m.labels[i] != "toUnspool" {
+						continue
+					}
+					v := resolve(st.Chan)
+					if u, ok := v.(*ssa.UnOp); ok {
+						if al, ok := u.X.(*ssa.Alloc); ok {
+							if s := cellValue(al); s != nil {
+								v = resolve(s)
+							}
+						}
+					}
+					switch {
+					case isFieldLoad(v, outF):
+						return []string{"unspool:on"}
+					case func() bool { k, ok := v.(*ssa.Const); return ok && k.IsNil() }():
+						return []string{"unspool:off"}
+					}
+					return []string{"unspool:?"}
+				}
+				return nil
+			}
+			cc := callCommon(in)
+			if cc == nil {
+				return nil
+			}
+			switch calleeName(cc) {
+			case nClear:
+				return []string{"clearRedo"}
+			case "(*sync.WaitGroup).Add":
+				if isFieldAddrOf(cc.Args[0], tasksF) {
+					return []string{"tasks.Add"}
+				}
+			}
+			return nil
+		},
+		BranchV: func(ifi *ssa.If, cond ssa.Value, taken bool, resolve func(ssa.Value) ssa.Value) []string {
 			cnd, neg := negStrip(cond)
+			val := taken != neg
 			if call, ok := cnd.(*ssa.Call); ok && calleeName(call.Common()) == nIsAlive {
-				return []string{"isAlive"}
+				if val {
+					return []string{"alive@" + id(resolve(call.Call.Args[0]))}
+				}
+				return []string{"dead@" + id(resolve(call.Call.Args[0]))}
 			}
 			if bo, ok := cnd.(*ssa.BinOp); ok && (bo.Op == token.NEQ || bo.Op == token.EQL) {
 				var x ssa.Value
@@ -169,31 +262,54 @@ func c06r5(c *Check) {
 					x = bo.Y
 				}
 				if x != nil && isConn(x) {
-					nonNil := (bo.Op == token.NEQ) == (taken != neg)
-					if nonNil {
+					if (bo.Op == token.NEQ) == val {
 						return []string{"conn:held"}
 					}
 					return []string{"conn:nil"}
 				}
 			}
+			if _, f, ok := fieldLoad(cnd); ok {
+				tf := map[bool]string{true: "T", false: "F"}
+				switch f {
+				case spoolF:
+					if val {
+						return []string{"spool:on"}
+					}
+					return []string{"spool:off"}
+				case slowLastF:
+					return []string{"slowlast:" + tf[val]}
+				case slowNowF:
+					return []string{"slownow:" + tf[val]}
+				}
+			}
 			return nil
 		},
 	}
-	paths, trunc := EnumPaths(m.fn, m.loop.Header, cfg)
+	return EnumPaths(m.fn, m.loop.Header, cfg)
+}
+
+func hasPrefixEvent(pa *Path, prefix string) (string, bool) {
+	for _, e := range pa.Events {
+		if strings.HasPrefix(e.Class, prefix) {
+			return e.Class, true
+		}
+	}
+	return "", false
+}
+
+func c06r5(c *Check) {
+	m := buildRelayModel(c)
+	paths, trunc := relayHeadPaths(c, m)
 	bad := ""
 	nHeld := 0
 	for i := range paths {
 		pa := &paths[i]
-		first := ""
-		for _, e := range pa.Events {
-			if strings.HasPrefix(e.Class, "conn:") {
-				first = e.Class
-				break
-			}
-		}
+		first, _ := hasPrefixEvent(pa, "conn:")
 		if first == "conn:held" {
 			nHeld++
-			if !pa.Has("isAlive") {
+			_, a := hasPrefixEvent(pa, "alive@")
+			_, d := hasPrefixEvent(pa, "dead@")
+			if !a && !d {
 				bad = "a held connection reaches the select without conn.isAlive() having been consulted in this iteration: lines received while the endpoint is down are queued on the dead connection and disappear uncounted instead of being counted as conn-down drops: " + pa.String()
 			}
 		}
@@ -321,7 +437,7 @@ func c06r3(c *Check) {
 	c.Judge(nGo >= 1, "destination.relay starts updateConn with go", c.AtFn(relay), fmt.Sprintf("%d go statements", nGo), "relay no longer starts connection attempts in their own goroutine")
 }
 
-func dispositionCfg(c *Check) *PathCfg {
+func dispositionCfg(c *Check, fn *ssa.Function) *PathCfg {
 	connIn := c.P.Field("destination", "Conn", "In")
 	inRT := c.P.Field("destination", "Spool", "InRT")
 	return &PathCfg{
@@ -359,7 +475,7 @@ func dispositionCfg(c *Check) *PathCfg {
 			}
 			return []string{"recv"}
 		},
-		Inline: func(callee *ssa.Function) bool { return callee.Parent() != nil }, // local closures
+		Inline: inlineSameRecv(fn), // local closures and helper methods of the same type
 	}
 }
 
@@ -374,7 +490,7 @@ func c06r4(c *Check) {
 			c.Undecided(key, c.At(m.sel), "case body not located")
 			return
 		}
-		cfg := dispositionCfg(c)
+		cfg := dispositionCfg(c, m.fn)
 		cfg.Stop = func(x *ssa.BasicBlock) bool { return x == m.loop.Header }
 		paths, trunc := EnumPaths(m.fn, b, cfg)
 		c.Stat("paths", len(paths))
@@ -448,8 +564,11 @@ func c06r4(c *Check) {
 	}
 	loops := loopsOf(hd)
 	nWrite := "(*" + modPath + "/destination.Conn).Write"
+	sameRecv := inlineSameRecv(hd)
 	cfg := &PathCfg{
 		Stop: func(x *ssa.BasicBlock) bool { return len(loops) > 0 && x == loops[0].Header },
+		// the case body may have been moved into a helper method; Write itself is an event, not expanded
+		Inline: func(g *ssa.Function) bool { return sameRecv(g) && FuncName(g) != short(nWrite) },
 		Classify: func(in ssa.Instruction) []string {
 			if isCallNamed(in, nWrite) {
 				return []string{"write"}
